@@ -262,6 +262,11 @@ def pred_matches(pred, f, all_names) -> bool:
     if tag == "name":
         return f["n"] == pred[1]
     if tag == "type":
+        if f["p"] == "nr":
+            # the field is declared NotRequired[T]; "if you pass a class, the provider will be applied to all same
+            # types" does not say whether the qualifier is looked through (adaptix: it is for loader(int, ...),
+            # it is not for skip / only / map / omit_default predicates) -- predicate semantics belong to C10
+            raise Unspecified("type predicate against a NotRequired-qualified field")
         return f["t"] == pred[1]
     if tag == "re":
         full = re.fullmatch(pred[1], f["n"]) is not None
@@ -681,7 +686,7 @@ def build_pred(p, built: Built):
     if tag in ("name", "re"):
         return p[1]
     if tag == "type":
-        return SCALARS.get(p[1]) or built.inner
+        return SCALARS[p[1]] if p[1] in SCALARS else {"inner": built.inner}[p[1]]
     raise ValueError(p)
 
 
@@ -1192,12 +1197,14 @@ def st_model(draw):  # noqa: C901, PLR0912
 def st_pred(fields, allow_inner_type=True):
     names = [f["n"] for f in fields] or ["a"]
     types = sorted({f["t"] for f in fields if f["t"] in SCALARS or (f["t"] == "inner" and allow_inner_type)}) or ["int"]
+    if any(f["p"] == "nr" for f in fields):
+        types = []  # type predicates against NotRequired[T] fields are an unspecified zone (see pred_matches)
     return st.one_of(
         st.sampled_from(names).map(lambda n: ["name", n]),
         st.sampled_from(names).map(lambda n: ["name", n]),
         st.lists(st.sampled_from(names), min_size=2, max_size=2, unique=True).map(lambda ns: ["re", "|".join(ns)])
         if len(names) >= 2 else st.just(["name", names[0]]),
-        st.sampled_from(types).map(lambda t: ["type", t]),
+        st.sampled_from(types).map(lambda t: ["type", t]) if types else st.just(["any"]),
         st.just(["any"]),
     )
 
@@ -1490,7 +1497,8 @@ def st_case(draw, probe=None):  # noqa: C901
             # open finding C03-omit-default-compares-dumped-value: keep omit_default away from nested-model fields
             for prov in recipe:
                 if "omit_default" in prov and prov["omit_default"] is not False:
-                    prov["omit_default"] = [["type", "int"], ["type", "str"], ["type", "bool"], ["type", "dict"]]
+                    prov["omit_default"] = [["type", "int"], ["type", "str"], ["type", "bool"],
+                                            *[["name", f["n"]] for f in ms["fields"] if f["t"] == "dict"]]
             excluded += 1
             if "omit" in known_classes(ms, recipe, strict):
                 for prov in recipe:
